@@ -2,9 +2,11 @@ import EaselModel.Random.Lemmas
 import EaselModel.Random.Choose
 import EaselModel.Random.Deal64Fuel
 import EaselModel.Random.Deal64Real
+import EaselModel.Random.Deal64AbsField
 import EaselModel.Random.GaussThm
 import EaselModel.Random.SamplersLen
 import EaselModel.Random.Replay
+import EaselModel.Random.Dump
 import EaselModel.Generated.RandTables
 /-! # C09 — property theorems (statements + glue only; lemmas live in Random/*.lean)
 
@@ -159,6 +161,39 @@ example : @OracleOK ℚ _ _ _ _ ⟨fun _ => 1, fun _ => 0⟩ :=
   @OracleOK.mk ℚ _ _ _ _ ⟨fun _ => 1, fun _ => 0⟩ (fun _ => zero_le_one) (fun _ _ => le_refl _) (fun _ _ _ => le_refl _)
 example : OracleOK ℝ := realOracleOK
 
+/-! ### The same over an ABSTRACT floating-point carrier (no field law assumed)
+
+`F` is any type, `add sub mul div neg exp log floor round < <=` are arbitrary functions on it.  `FloatFacts F B`
+(`Random/Deal64Abs.lean`) lists what is assumed of them: sign/monotonicity facts of single rounded operations, exactness of
+integers of magnitude `≤ B`, the sign facts of `exp`/`log`, NaN propagation through `*` — each valid for IEEE binary64 with
+`B = 2^53` for all operands including `±0`, `±inf`, NaN — and NO real-number identity (`(-X)/n + 1 = Vprime`, associativity, …).
+Everything else is a test the code performs (`S < qu1`, `Vprime <= 1.`, `quot > U`, `if (S >= n) S = n-1`). -/
+theorem rand64_deal_spec_abstract {F : Type} [VOps F] {B : Int} (ff : FloatFacts F B) {σ : Type} (next : σ → UInt64 × σ)
+    (fuel : Nat) (m n : Int) (hm : 1 ≤ m) (hmn : m ≤ n) (hnB : n ≤ B) (s : σ) (out : List Int) (v : Option F) (s' : σ)
+    (h : deal64Core next fuel m n s = some (out, v, s')) :
+    (out.length : Int) = m ∧ out.Pairwise (· < ·) ∧ ∀ a ∈ out, 0 ≤ a ∧ a < n := by
+  obtain ⟨h1, h2, h3⟩ := deal64Core_abs ff next fuel m n hm hmn hnB s out v s' h
+  exact ⟨h1, h2, fun a ha => ⟨(h3 a ha).1, by have := (h3 a ha).2; omega⟩⟩
+
+/-- the code BEFORE fix ba43348 (final step without the clamp), on any carrier: when the first `Vprime` is a value `v` with
+    `floor(n·v) = n` — in binary64 that is `v = 1.0`, which the acceptance test `Vprime <= 1.` lets through — the deal of 1
+    from `n` is `[n]`, outside `0..n-1` -/
+theorem rand64_deal_prefix_out_of_range {F : Type} [VOps F] {σ : Type} (next : σ → UInt64 × σ) (fuel : Nat) (n : Int) (s : σ)
+    (h1 : VOps.floorI (VOps.mul (VOps.ofInt n) (VOps.powU (VOps.div VOps.one (VOps.ofInt 1)) (VOps.dbl (next s).1 : F))) = n) :
+    deal64PreFix (F := F) next fuel 1 n s = some ([n], (next s).2) ∧ ¬ DealOKz [n] 1 (n - 1) :=
+  deal64PreFix_out_of_range next fuel n s h1
+
+/-- … and such a carrier exists among those satisfying ALL of `FloatFacts` (so the clamp is necessary for
+    `rand64_deal_spec_abstract`, not implied by the other facts): `ℚ` with `exp ≡ 1`, `log ≡ 0`, any bound, any generator state -/
+theorem rand64_deal_prefix_defect_carrier (B : ℤ) {σ : Type} (next : σ → UInt64 × σ) (fuel : ℕ) (n : ℤ) (s : σ) :
+    letI : Oracles ℚ := constOracles
+    FloatFacts ℚ B ∧ deal64PreFix (F := ℚ) next fuel 1 n s = some ([n], (next s).2) ∧ ¬ DealOKz [n] 1 (n - 1) :=
+  prefix_defect_on_a_carrier B next fuel n s
+
+/-! non-vacuity of `FloatFacts`: every ordered field with floor and sign-correct oracles, any bound; in particular `ℝ` -/
+example (B : ℤ) : FloatFacts ℝ B := realFloatFacts B
+example : (1 : Int) ≤ 2 ∧ (2 : Int) ≤ 27 ∧ (27 : Int) ≤ 2^53 := by decide
+
 /-! ## The derived samplers of esl_random.c (`Random/Samplers.lean`, driven bit for bit through the `Float` instance) -/
 
 /-- `esl_rnd_UniformPositive` (numerator model): the first non-zero draw, `0 < x < 2^32`, i.e. the double lies in (0,1) -/
@@ -247,6 +282,46 @@ theorem mt_constants_published :
     EaselModel.Generated.RandTables.mt64FillLits =
       [2, 0, 0xB5026F5AA96619E9, 0, 156, 0xFFFFFFFF80000000, 1, 0x7FFFFFFF, 156, 1, 1, 311, 0xFFFFFFFF80000000, 1,
        0x7FFFFFFF, 156, 1, 1, 311, 0xFFFFFFFF80000000, 0, 0x7FFFFFFF, 311, 155, 1, 1, 0] := by decide
+
+/-! ## Seed 0 through Create / CreateFast / CreateTimeseeded / Init (both generators), `esl_rand64_Init`, and the Dump functions -/
+
+/-- `esl_randomness_Create(0)`, `_CreateFast(0)`, `_CreateTimeseeded()`: whatever `time()`, `getpid()`, `clock()` answer, the
+    seed reported by `GetSeed` is non-zero and the generator IS the generator created with that seed (same whole state, hence
+    same stream of every derived draw); `CreateTimeseeded` is `Create(0)` -/
+theorem seed0_create_replays (k : Kind) (env : Env) :
+    (Rng.createEnv k 0 env).seed ≠ 0 ∧ Rng.createEnv k 0 env = Rng.create k (Rng.createEnv k 0 env).seed ∧
+    Rng.createTimeseeded env = Rng.createEnv .mersenne 0 env := by
+  have hs : (Rng.createEnv k 0 env).seed = effSeed32 0 env := reinit_reports_seed _ _
+  exact ⟨by rw [hs]; exact seed0_nonzero32 env, by rw [hs]; rfl, rfl⟩
+
+/-- `esl_randomness_Init(r, 0)` on a generator of any history: non-zero reported seed, stream = the stream of that seed -/
+theorem seed0_init_replays (r : Rng) (env : Env) (k : Nat) :
+    (r.initEnv 0 env).seed ≠ 0 ∧
+    ((r.initEnv 0 env).draws k).1 = ((Rng.create r.kind (r.initEnv 0 env).seed).draws k).1 := by
+  have hs : (r.initEnv 0 env).seed = effSeed32 0 env := reinit_reports_seed _ _
+  exact ⟨by rw [hs]; exact seed0_nonzero32 env, by rw [hs]; exact reinit_replays r _ k⟩
+
+/-- the 64-bit generator: `esl_rand64_Init(rng, seed)` on any history replaces the whole state by that of
+    `esl_rand64_Create(seed)` (replay), seed 0 selects a non-zero seed that is reported back, non-zero seeds are kept -/
+theorem rand64_init_replays (r : Rng64) (seed : UInt64) (env : Env) :
+    r.initEnv seed env = Rng64.create (r.initEnv seed env).seed ∧ (r.initEnv 0 env).seed ≠ 0 ∧
+    (seed ≠ 0 → (r.initEnv seed env).seed = seed) :=
+  ⟨rfl, seed0_nonzero64 env, fun h => by simp [Rng64.initEnv, Rng64.initWith, Rng64.create, effSeed64, h]⟩
+
+/-- `esl_randomness_Dump` / `esl_rand64_Dump` read only inside the state table, for every seed, either kind, after any number
+    of draws — in particular with the table exactly used up (`mti == 624`, the state of fix 6211f3f) -/
+theorem dump_in_bounds (kind : Kind) (seed : UInt32) (seed64 : UInt64) (k : Nat) :
+    ((Rng.create kind seed).draws k).2.dump.isSome ∧ ((Rng64.create seed64).draws k).2.dump.isSome :=
+  ⟨Rng.dump_isSome _ (Rng.wf_draws _ (Rng.wf_create kind seed) k), Rng64.dump_isSome _ (Rng64.wf_draws _ (Rng64.wf_create seed64) k)⟩
+
+/-- and after a re-initialisation of any well-formed state -/
+theorem dump_in_bounds_reinit (r : Rng) (seed : UInt32) (k : Nat) : ((r.initWith seed).draws k).2.dump.isSome :=
+  Rng.dump_isSome _ (Rng.wf_draws _ (Rng.wf_initWith r seed) k)
+
+/-- counter-example kept from before fix 6211f3f: the unguarded read `mt[mti]` is out of bounds after Create + 624 draws,
+    for every seed -/
+theorem dump_prefix_out_of_bounds (seed : UInt32) : ((Rng.create .mersenne seed).draws 624).2.dumpCurPreFix = none :=
+  Rng.dumpCurPreFix_fault_reached seed
 
 /-! non-vacuity of the sampler hypotheses -/
 example : TablesOK ⟨Array.replicate 32 0, Array.replicate 31 0, Array.replicate 31 0, Array.replicate 31 0⟩ :=
